@@ -263,7 +263,8 @@ theorem alias_visit (ha : a ≠ []) : (e : Expr) →
   | .compare op l r => by
       rw [sqlVisit, sqlVisit, alias_visit ha l, alias_visit ha r]
       cases sqlVisit isD d none l <;> simp [omap]
-      cases sqlVisit isD d none r <;> simp [qualify_wrapOperand, qualify_cmpPieces]
+      cases sqlVisit isD d none r <;> simp
+      split <;> simp [qualify_wrapOperand, qualify_cmpPieces]
   | .boolop op l r => by
       rw [sqlVisit, sqlVisit, alias_visit ha l, alias_visit ha r]
       cases sqlVisit isD d none l <;> simp [omap]
